@@ -162,11 +162,13 @@ def plan(ctx):
     for b in BACKENDS:
         for prefix in PREFIXES:
             for enc in (False, True):
-                for sh in A.shard_prefixes(A.DELIM, k, 1):
-                    tasks.append(("checks.C09", "task_ctor", (prefix, enc, k, sh, quick), b, "c"))
+                # quick: length 3 everywhere, length 4 only where the constructor pre-fills its cache from an authority ('//', auto-encoding)
+                kk = k if (not quick or (prefix == "//" and not enc)) else 3
+                for sh in A.shard_prefixes(A.DELIM, kk, 1):
+                    tasks.append(("checks.C09", "task_ctor", (prefix, enc, kk, sh, quick), b, "c"))
         for part in range(8):
             tasks.append(("checks.C09", "task_hosts", (part, 8, quick), b, "h"))
-    ctx.notes["bounds"] = {"delimiter_alphabet": A.DELIM, "max_word_length": k, "prefixes": PREFIXES, "bfs_depth": 2 if quick else 3}
+    ctx.notes["bounds"] = {"delimiter_alphabet": A.DELIM, "max_word_length": "3 (4 for prefix '//' with auto-encoding)" if quick else k, "prefixes": PREFIXES, "bfs_depth": 2 if quick else 3}
     return tasks
 
 
